@@ -1,7 +1,7 @@
-(* C03 — proof that the collector of the code as it is satisfies the outlining hypotheses on the class
+(* C03 — proof that the collector of the current code (Current.current) satisfies the outlining hypotheses on the class
    Sufficient.side_C03: the visitor is followed through the three phases (before / inside / after the region). *)
 From Coq Require Import List NArith ZArith Bool Lia.
-From RopeVerif.C03 Require Import Flow Collector Dataflow FlowProofs LiveProofs OutlineProofs CollectorProofs Sufficient.
+From RopeVerif.C03 Require Import Flow Collector Dataflow Current FlowProofs LiveProofs OutlineProofs CollectorProofs Sufficient.
 Import ListNotations.
 
 Lemma visit_b_app : forall sw lo hi a b s, visit_b sw lo hi (a ++ b) s = visit_b sw lo hi b (visit_b sw lo hi a s).
@@ -17,11 +17,11 @@ Section Phases.
   Variables lo hi : N.
   Hypothesis LH : (lo <= hi)%N.
 
-  Notation rv := (read_var as_is lo hi).
-  Notation wv := (written_var as_is lo hi).
-  Notation ve := (visit_e as_is lo hi).
-  Notation vs := (visit_s as_is lo hi).
-  Notation vb := (visit_b as_is lo hi).
+  Notation rv := (read_var current lo hi).
+  Notation wv := (written_var current lo hi).
+  Notation ve := (visit_e current lo hi).
+  Notation vs := (visit_s current lo hi).
+  Notation vb := (visit_b current lo hi).
 
   (* ---------------------------------------------------------------- before the region *)
   Lemma before_flags : forall l, (l < lo)%N -> in_reg lo hi l = false /\ N.ltb l lo = true /\ N.ltb hi l = false.
@@ -397,12 +397,22 @@ Section Phases.
       + intros y [Hy|[]] _ _. subst y. apply In_add. auto.
   Qed.
 
-  Lemma wv_after : forall x l s, (hi < l)%N -> step [x] [] s (wv x l s).
+  Lemma wv_after_eq : forall x l s, (hi < l)%N ->
+    wv x l s = if Z.ltb 0 (pnest s) then s
+               else {| prew := prew s; mayw := mayw s; wr := wr s; rd := rd s; postrd := postrd s;
+                       postwr := add x (postwr s); cond := cond s; depth := depth s; pnest := pnest s |}.
   Proof.
     intros x l s H. destruct (after_flags l H) as [E1 [E2 E3]].
-    unfold written_var. rewrite E1, E2, E3. simpl. unfold step; simpl. repeat split; auto.
-    - intros y Hy. apply In_add in Hy. destruct Hy; [right; left; auto | left; assumption].
-    - intros y [].
+    unfold written_var. rewrite E1, E2, E3. simpl. destruct (Z.ltb 0 (pnest s)); reflexivity.
+  Qed.
+
+  Lemma wv_after : forall x l s, (hi < l)%N -> step [x] [] s (wv x l s).
+  Proof.
+    intros x l s H. rewrite wv_after_eq by exact H. destruct (Z.ltb 0 (pnest s)).
+    - unfold step. repeat split; auto. intros y [].
+    - unfold step; simpl. repeat split; auto.
+      + intros y Hy. apply In_add in Hy. destruct Hy; [right; left; auto | left; assumption].
+      + intros y [].
   Qed.
 
   Lemma ve_after : forall l e s, (hi < l)%N -> step [] (vars_e e) s (ve l e s).
@@ -415,12 +425,12 @@ Section Phases.
 
   Lemma same6_cond_enter : forall l s, same6 s (cond_enter lo hi l s).
   Proof. intros. unfold cond_enter. destruct (in_reg lo hi l); unfold same6; simpl; repeat split. Qed.
-  Lemma same6_cond_exit : forall p s, same6 s (cond_exit as_is p s).
+  Lemma same6_cond_exit : forall p s, same6 s (cond_exit current p s).
   Proof. intros. unfold same6; simpl; repeat split. Qed.
   Lemma same6_loop_enter : forall l s, same6 s (loop_enter lo l s).
   Proof. intros. unfold loop_enter. destruct (N.ltb l lo); unfold same6; simpl; repeat split. Qed.
-  Lemma same6_loop_exit : forall l s, same6 s (loop_exit as_is lo l s).
-  Proof. intros. unfold loop_exit. simpl. unfold same6; simpl; repeat split. Qed.
+  Lemma same6_loop_exit : forall l s, same6 s (loop_exit current lo l s).
+  Proof. intros. unfold loop_exit. destruct (sw_balanced current && negb (N.ltb l lo)); unfold same6; simpl; repeat split. Qed.
   Lemma same6_nest_enter : forall b s, same6 s (nest_enter b s).
   Proof. intros. unfold nest_enter. destruct b; unfold same6; simpl; repeat split. Qed.
   Lemma same6_nest_exit : forall b s, same6 s (nest_exit b s).
@@ -466,7 +476,7 @@ Section Phases.
                              (step_same6 _ _ (same6_nest_exit sib _))) | |]; simpl; auto.
         - intros y Hy. rewrite app_nil_r in Hy. exact Hy.
         - intros y Hy. rewrite app_nil_r. exact Hy. }
-      assert (T4 : step [] [] s3 (cond_exit as_is prev (nest_exit after s3))).
+      assert (T4 : step [] [] s3 (cond_exit current prev (nest_exit after s3))).
       { eapply step_weaken; [exact (step_trans _ _ _ _ _ _ _ (step_same6 _ _ (same6_nest_exit after s3)) (step_same6 _ _ (same6_cond_exit prev _))) | |]; simpl; auto. }
       eapply step_weaken;
         [exact (step_trans _ _ _ _ _ _ _ (step_trans _ _ _ _ _ _ _ (step_trans _ _ _ _ _ _ _ T1 T2) T3) T4) | |].
@@ -487,7 +497,7 @@ Section Phases.
           simpl; auto. }
       assert (T2 : step (defs b) (vars_e c ++ reads b) s1 s2).
       { eapply step_weaken; [exact (step_trans _ _ _ _ _ _ _ (ve_after l c s1 L) (Hb _ NC AGb)) | |]; simpl; auto. }
-      assert (T3 : step [] [] s2 (loop_exit as_is lo l (cond_exit as_is prev (nest_exit after s2)))).
+      assert (T3 : step [] [] s2 (loop_exit current lo l (cond_exit current prev (nest_exit after s2)))).
       { eapply step_weaken;
           [exact (step_trans _ _ _ _ _ _ _ (step_trans _ _ _ _ _ _ _ (step_same6 _ _ (same6_nest_exit after s2))
                                               (step_same6 _ _ (same6_cond_exit prev _))) (step_same6 _ _ (same6_loop_exit l _))) | |];
@@ -515,7 +525,7 @@ Section Phases.
           simpl; auto.
         intros y Hy. rewrite app_nil_r. exact Hy. }
       assert (T3 : step (defs b) (reads b) s2 s3) by (apply Hb; assumption).
-      assert (T4 : step [] [] s3 (loop_exit as_is lo l (cond_exit as_is prev (nest_exit after s3)))).
+      assert (T4 : step [] [] s3 (loop_exit current lo l (cond_exit current prev (nest_exit after s3)))).
       { eapply step_weaken;
           [exact (step_trans _ _ _ _ _ _ _ (step_trans _ _ _ _ _ _ _ (step_same6 _ _ (same6_nest_exit after s3))
                                               (step_same6 _ _ (same6_cond_exit prev _))) (step_same6 _ _ (same6_loop_exit l _))) | |];
@@ -608,6 +618,306 @@ Proof.
     + right. right. exact H.
 Qed.
 
+(* ------------------------------------------------------------------ after the region, kill discipline of f6cf806 *)
+Lemma pnest_rv : forall sw lo hi x l s, pnest (read_var sw lo hi x l s) = pnest s.
+Proof.
+  intros. unfold read_var.
+  destruct (in_reg lo hi l); [destruct (negb (mem x (wr s)) && _)|]; simpl;
+    (destruct (N.ltb hi l); [match goal with |- context [if ?c then _ else _] => destruct c end|]; reflexivity).
+Qed.
+
+Lemma pnest_ve : forall sw lo hi l e s, pnest (visit_e sw lo hi l e s) = pnest s.
+Proof.
+  intros sw lo hi l e. induction e as [x|z|o a IHa b IHb]; intros s; simpl.
+  - apply pnest_rv.
+  - reflexivity.
+  - rewrite IHb. apply IHa.
+Qed.
+
+Section After.
+  Variables lo hi : N.
+  Hypothesis LH : (lo <= hi)%N.
+
+  Notation rv := (read_var current lo hi).
+  Notation wv := (written_var current lo hi).
+  Notation ve := (visit_e current lo hi).
+  Notation vs := (visit_s current lo hi).
+  Notation vb := (visit_b current lo hi).
+
+  Lemma pnest_wv_after : forall x l s, (hi < l)%N -> pnest (wv x l s) = pnest s.
+  Proof. intros x l s H. rewrite (wv_after_eq lo hi LH x l s H). destruct (Z.ltb 0 (pnest s)); reflexivity. Qed.
+
+  Lemma sibling_after : forall l (b : list stmt), (hi < l)%N ->
+    match b with [] => false | f :: _ => N.ltb l lo && N.ltb hi (line_of f) end = false.
+  Proof.
+    intros l b H. destruct b; [reflexivity|]. destruct (after_flags lo hi LH l H) as [_ [E _]]. rewrite E. reflexivity.
+  Qed.
+
+  (* the nesting counter is restored by every statement after the region *)
+  Lemma pnest_post :
+    (forall s st, all_gt hi (slines s) -> pnest (vs s st) = pnest st)
+    /\ (forall ss st, all_gt hi (blines ss) -> pnest (vb ss st) = pnest st).
+  Proof.
+    apply (stmt_blk_ind
+             (fun s => forall st, all_gt hi (slines s) -> pnest (vs s st) = pnest st)
+             (fun ss => forall st, all_gt hi (blines ss) -> pnest (vb ss st) = pnest st)).
+    - intros l x e st AG. assert (L : (hi < l)%N) by (apply AG; simpl; auto). simpl.
+      rewrite pnest_wv_after by exact L. apply pnest_ve.
+    - intros l x o e st AG. assert (L : (hi < l)%N) by (apply AG; simpl; auto). simpl.
+      rewrite pnest_wv_after by exact L. rewrite pnest_rv. apply pnest_ve.
+    - intros l e st AG. simpl. rewrite pnest_ve. apply pnest_rv.
+    - intros l c a b Ha Hb st AG. assert (L : (hi < l)%N) by (apply AG; simpl; auto).
+      assert (AGa : all_gt hi (blines a)) by (intros y Hy; apply AG; simpl; right; apply in_or_app; left; exact Hy).
+      assert (AGb : all_gt hi (blines b)) by (intros y Hy; apply AG; simpl; right; apply in_or_app; right; exact Hy).
+      simpl vs. rewrite (sibling_after l b L). destruct (after_flags lo hi LH l L) as [E1 [E2 E3]]. rewrite E3.
+      unfold cond_exit, set_cond, nest_exit, nest_enter, cond_enter. rewrite E1. simpl.
+      fold (vb a (ve l c (set_pnest (pnest st + 1)%Z st))).
+      fold (vb b (vb a (ve l c (set_pnest (pnest st + 1)%Z st)))).
+      rewrite Hb by exact AGb. rewrite Ha by exact AGa. rewrite pnest_ve. simpl. lia.
+    - intros l c b Hb st AG. assert (L : (hi < l)%N) by (apply AG; simpl; auto).
+      assert (AGb : all_gt hi (blines b)) by (intros y Hy; apply AG; simpl; right; exact Hy).
+      simpl vs. destruct (after_flags lo hi LH l L) as [E1 [E2 E3]]. rewrite E3.
+      unfold loop_exit, cond_exit, set_cond, nest_exit, nest_enter, cond_enter, loop_enter. rewrite E1, E2. simpl.
+      fold (vb b (ve l c (set_pnest (pnest st + 1)%Z st))).
+      rewrite Hb by exact AGb. rewrite pnest_ve. simpl. lia.
+    - intros l x e b Hb st AG. assert (L : (hi < l)%N) by (apply AG; simpl; auto).
+      assert (AGb : all_gt hi (blines b)) by (intros y Hy; apply AG; simpl; right; exact Hy).
+      simpl vs. destruct (after_flags lo hi LH l L) as [E1 [E2 E3]]. rewrite E3.
+      unfold loop_exit, cond_exit, set_cond, nest_exit, nest_enter, cond_enter, loop_enter. rewrite E1, E2. simpl.
+      match goal with |- context [fold_left _ b ?s0] => fold (vb b s0) end.
+      rewrite Hb by exact AGb. rewrite pnest_wv_after by exact L. rewrite pnest_ve, pnest_rv. simpl. lia.
+    - intros l e st AG. simpl. apply pnest_ve.
+    - reflexivity.
+    - reflexivity.
+    - reflexivity.
+    - intros l rets args body tail shared _ st AG. assert (L : (hi < l)%N) by (apply AG; simpl; auto). simpl.
+      assert (G1 : forall xs s, pnest (fold_left (fun acc x => rv x l acc) xs s) = pnest s).
+      { induction xs as [|y ys IH]; intros s; simpl; [reflexivity|]. rewrite IH. apply pnest_rv. }
+      assert (G2 : forall xs s, pnest (fold_left (fun acc x => wv x l acc) xs s) = pnest s).
+      { induction xs as [|y ys IH]; intros s; simpl; [reflexivity|]. rewrite IH. apply pnest_wv_after. exact L. }
+      rewrite G2. apply G1.
+    - reflexivity.
+    - intros s r Hs Hr st AG. rewrite visit_b_cons.
+      assert (AGs : all_gt hi (slines s)) by (intros y Hy; apply AG; unfold blines; simpl; apply in_or_app; auto).
+      assert (AGr : all_gt hi (blines r)) by (intros y Hy; apply AG; unfold blines; simpl; apply in_or_app; auto).
+      rewrite Hr by exact AGr. apply Hs. exact AGs.
+  Qed.
+
+  (* inside a compound statement after the region nothing is added to postwritten, so every name that is read
+     there and is not yet postwritten becomes postread *)
+  Definition nstep (Rd : list var) (st st' : cst) : Prop :=
+    postwr st' = postwr st
+    /\ (forall x, In x (postrd st) -> In x (postrd st'))
+    /\ (forall x, In x Rd -> ~ In x (postwr st) -> In x (postrd st')).
+
+  Lemma nstep_trans : forall R1 R2 a b c, nstep R1 a b -> nstep R2 b c -> nstep (R1 ++ R2) a c.
+  Proof.
+    intros R1 R2 a b c (A1 & A2 & A3) (B1 & B2 & B3). unfold nstep. repeat split; try congruence; auto.
+    intros x Hx N1. apply in_app_or in Hx. destruct Hx as [Hx|Hx]; [apply B2; apply A3; assumption|].
+    apply B3; [exact Hx | rewrite A1; exact N1].
+  Qed.
+
+  Lemma nstep_same6 : forall a b, same6 a b -> nstep [] a b.
+  Proof.
+    intros a b (H1 & H2 & H3 & H4 & H5 & H6). unfold nstep. repeat split; auto.
+    - intros x Hx. rewrite H5. exact Hx.
+    - intros x [].
+  Qed.
+
+  Lemma nstep_weaken : forall R R' a b, nstep R a b -> (forall x, In x R' -> In x R) -> nstep R' a b.
+  Proof. intros R R' a b (A1 & A2 & A3) S. unfold nstep. repeat split; auto. Qed.
+
+  Lemma nstep_rv : forall x l s, (hi < l)%N -> nstep [x] s (rv x l s).
+  Proof.
+    intros x l s H. destruct (after_flags lo hi LH l H) as [E1 [E2 E3]].
+    unfold read_var. rewrite E1, E3. destruct (mem x (postwr s)) eqn:E; simpl; unfold nstep; simpl; repeat split; auto.
+    - intros y [Hy|[]] N1. subst y. apply mem_In in E. contradiction.
+    - intros y Hy. apply In_add. auto.
+    - intros y [Hy|[]] _. subst y. apply In_add. auto.
+  Qed.
+
+  Lemma nstep_ve : forall l e s, (hi < l)%N -> nstep (vars_e e) s (ve l e s).
+  Proof.
+    intros l e. induction e as [x|z|o a IHa b IHb]; intros s H; simpl.
+    - apply nstep_rv. exact H.
+    - apply nstep_same6. unfold same6. repeat split.
+    - exact (nstep_trans _ _ _ _ _ (IHa s H) (IHb _ H)).
+  Qed.
+
+  Lemma nstep_wv_nested : forall x l s, (hi < l)%N -> (0 < pnest s)%Z -> nstep [] s (wv x l s).
+  Proof.
+    intros x l s H P. rewrite (wv_after_eq lo hi LH x l s H). apply Z.ltb_lt in P. rewrite P.
+    apply nstep_same6. unfold same6. repeat split.
+  Qed.
+
+  Lemma nested_phase :
+    (forall s st, nocall_s s = true -> all_gt hi (slines s) -> (0 <= pnest st)%Z ->
+        (0 < pnest st)%Z \/ compound s = true -> nstep (reads_s s) st (vs s st))
+    /\ (forall ss st, nocall ss = true -> all_gt hi (blines ss) -> (0 < pnest st)%Z -> nstep (reads ss) st (vb ss st)).
+  Proof.
+    apply (stmt_blk_ind
+             (fun s => forall st, nocall_s s = true -> all_gt hi (slines s) -> (0 <= pnest st)%Z ->
+                  (0 < pnest st)%Z \/ compound s = true -> nstep (reads_s s) st (vs s st))
+             (fun ss => forall st, nocall ss = true -> all_gt hi (blines ss) -> (0 < pnest st)%Z -> nstep (reads ss) st (vb ss st))).
+    - intros l x e st _ AG P0 [P|C]; [|discriminate]. assert (L : (hi < l)%N) by (apply AG; simpl; auto). simpl.
+      eapply nstep_weaken; [exact (nstep_trans _ _ _ _ _ (nstep_ve l e st L) (nstep_wv_nested x l _ L ltac:(rewrite pnest_ve; exact P))) |].
+      intros y Hy. apply in_or_app. left. exact Hy.
+    - intros l x o e st _ AG P0 [P|C]; [|discriminate]. assert (L : (hi < l)%N) by (apply AG; simpl; auto). simpl.
+      eapply nstep_weaken;
+        [exact (nstep_trans _ _ _ _ _ (nstep_trans _ _ _ _ _ (nstep_ve l e st L) (nstep_rv x l _ L))
+                            (nstep_wv_nested x l _ L ltac:(rewrite pnest_rv, pnest_ve; exact P))) |].
+      intros y Hy. apply in_or_app. left. apply in_or_app. destruct Hy as [Hy|Hy]; [right; left; exact Hy | left; exact Hy].
+    - intros l e st _ AG _ _. assert (L : (hi < l)%N) by (apply AG; simpl; auto). simpl.
+      exact (nstep_trans _ _ _ _ _ (nstep_rv name_print l st L) (nstep_ve l e _ L)).
+    - (* if *)
+      intros l c a b Ha Hb st NC AG P0 _. assert (L : (hi < l)%N) by (apply AG; simpl; auto).
+      simpl in NC. apply andb_true_iff in NC. destruct NC as [NCa NCb].
+      assert (AGa : all_gt hi (blines a)) by (intros y Hy; apply AG; simpl; right; apply in_or_app; left; exact Hy).
+      assert (AGb : all_gt hi (blines b)) by (intros y Hy; apply AG; simpl; right; apply in_or_app; right; exact Hy).
+      simpl vs. rewrite (sibling_after l b L). destruct (after_flags lo hi LH l L) as [E1 [E2 E3]]. rewrite E3.
+      set (prev := cond st).
+      set (s1 := nest_enter true (cond_enter lo hi l st)).
+      assert (P1 : pnest s1 = (pnest st + 1)%Z) by (unfold s1, cond_enter; rewrite E1; reflexivity).
+      fold (vb a (ve l c s1)). set (s2 := vb a (ve l c s1)).
+      unfold nest_enter at 1. unfold nest_exit at 2.
+      fold (vb b s2). set (s3 := vb b s2).
+      assert (T1 : nstep [] st s1).
+      { eapply nstep_weaken; [exact (nstep_trans _ _ _ _ _ (nstep_same6 _ _ (same6_cond_enter lo hi l st)) (nstep_same6 _ _ (same6_nest_enter true _))) |]; simpl; auto. }
+      assert (T2 : nstep (vars_e c ++ reads a) s1 s2).
+      { refine (nstep_trans _ _ _ _ _ (nstep_ve l c s1 L) (Ha _ NCa AGa _)). rewrite pnest_ve, P1. lia. }
+      assert (P2 : pnest s2 = (pnest st + 1)%Z).
+      { unfold s2. rewrite (proj2 pnest_post a _ AGa). rewrite pnest_ve. exact P1. }
+      assert (T3 : nstep (reads b) s2 s3) by (apply Hb; [exact NCb | exact AGb | rewrite P2; lia]).
+      assert (T4 : nstep [] s3 (cond_exit current prev (nest_exit true s3))).
+      { eapply nstep_weaken; [exact (nstep_trans _ _ _ _ _ (nstep_same6 _ _ (same6_nest_exit true s3)) (nstep_same6 _ _ (same6_cond_exit prev _))) |]; simpl; auto. }
+      eapply nstep_weaken; [exact (nstep_trans _ _ _ _ _ (nstep_trans _ _ _ _ _ (nstep_trans _ _ _ _ _ T1 T2) T3) T4) |].
+      intros y Hy. simpl. rewrite app_nil_r. rewrite <- app_assoc. exact Hy.
+    - (* while *)
+      intros l c b Hb st NC AG P0 _. assert (L : (hi < l)%N) by (apply AG; simpl; auto).
+      simpl in NC.
+      assert (AGb : all_gt hi (blines b)) by (intros y Hy; apply AG; simpl; right; exact Hy).
+      simpl vs. destruct (after_flags lo hi LH l L) as [E1 [E2 E3]]. rewrite E3.
+      set (prev := cond st).
+      set (s1 := nest_enter true (cond_enter lo hi l (loop_enter lo l st))).
+      assert (P1 : pnest s1 = (pnest st + 1)%Z) by (unfold s1, cond_enter, loop_enter; rewrite E1, E2; reflexivity).
+      fold (vb b (ve l c s1)). set (s2 := vb b (ve l c s1)).
+      assert (T1 : nstep [] st s1).
+      { eapply nstep_weaken;
+          [exact (nstep_trans _ _ _ _ _ (nstep_trans _ _ _ _ _ (nstep_same6 _ _ (same6_loop_enter lo l st))
+                                          (nstep_same6 _ _ (same6_cond_enter lo hi l _))) (nstep_same6 _ _ (same6_nest_enter true _))) |];
+          simpl; auto. }
+      assert (T2 : nstep (vars_e c ++ reads b) s1 s2).
+      { refine (nstep_trans _ _ _ _ _ (nstep_ve l c s1 L) (Hb _ NC AGb _)). rewrite pnest_ve, P1. lia. }
+      assert (T3 : nstep [] s2 (loop_exit current lo l (cond_exit current prev (nest_exit true s2)))).
+      { eapply nstep_weaken;
+          [exact (nstep_trans _ _ _ _ _ (nstep_trans _ _ _ _ _ (nstep_same6 _ _ (same6_nest_exit true s2))
+                                          (nstep_same6 _ _ (same6_cond_exit prev _))) (nstep_same6 _ _ (same6_loop_exit lo l _))) |];
+          simpl; auto. }
+      eapply nstep_weaken; [exact (nstep_trans _ _ _ _ _ (nstep_trans _ _ _ _ _ T1 T2) T3) |].
+      intros y Hy. simpl. rewrite app_nil_r. exact Hy.
+    - (* for *)
+      intros l x e b Hb st NC AG P0 _. assert (L : (hi < l)%N) by (apply AG; simpl; auto).
+      simpl in NC.
+      assert (AGb : all_gt hi (blines b)) by (intros y Hy; apply AG; simpl; right; exact Hy).
+      simpl vs. destruct (after_flags lo hi LH l L) as [E1 [E2 E3]]. rewrite E3.
+      set (prev := cond st).
+      set (s1 := nest_enter true (cond_enter lo hi l (loop_enter lo l st))).
+      assert (P1 : pnest s1 = (pnest st + 1)%Z) by (unfold s1, cond_enter, loop_enter; rewrite E1, E2; reflexivity).
+      set (s2 := wv x l (ve l e (rv name_range l s1))).
+      fold (vb b s2). set (s3 := vb b s2).
+      assert (Pe : pnest (ve l e (rv name_range l s1)) = (pnest st + 1)%Z) by (rewrite pnest_ve, pnest_rv; exact P1).
+      assert (T1 : nstep [] st s1).
+      { eapply nstep_weaken;
+          [exact (nstep_trans _ _ _ _ _ (nstep_trans _ _ _ _ _ (nstep_same6 _ _ (same6_loop_enter lo l st))
+                                          (nstep_same6 _ _ (same6_cond_enter lo hi l _))) (nstep_same6 _ _ (same6_nest_enter true _))) |];
+          simpl; auto. }
+      assert (T2 : nstep (name_range :: vars_e e) s1 s2).
+      { eapply nstep_weaken;
+          [exact (nstep_trans _ _ _ _ _ (nstep_trans _ _ _ _ _ (nstep_rv name_range l s1 L) (nstep_ve l e _ L))
+                              (nstep_wv_nested x l _ L ltac:(rewrite Pe; lia))) |].
+        intros y Hy. rewrite app_nil_r. exact Hy. }
+      assert (P2 : pnest s2 = (pnest st + 1)%Z) by (unfold s2; rewrite pnest_wv_after by exact L; exact Pe).
+      assert (T3 : nstep (reads b) s2 s3) by (apply Hb; [exact NC | exact AGb | rewrite P2; lia]).
+      assert (T4 : nstep [] s3 (loop_exit current lo l (cond_exit current prev (nest_exit true s3)))).
+      { eapply nstep_weaken;
+          [exact (nstep_trans _ _ _ _ _ (nstep_trans _ _ _ _ _ (nstep_same6 _ _ (same6_nest_exit true s3))
+                                          (nstep_same6 _ _ (same6_cond_exit prev _))) (nstep_same6 _ _ (same6_loop_exit lo l _))) |];
+          simpl; auto. }
+      eapply nstep_weaken; [exact (nstep_trans _ _ _ _ _ (nstep_trans _ _ _ _ _ (nstep_trans _ _ _ _ _ T1 T2) T3) T4) |].
+      intros y Hy. simpl. rewrite app_nil_r. simpl in Hy. destruct Hy as [Hy|Hy]; [left; exact Hy | right; exact Hy].
+    - intros l e st _ AG _ _. assert (L : (hi < l)%N) by (apply AG; simpl; auto). simpl. apply nstep_ve. exact L.
+    - intros l st _ _ _ _. simpl. apply nstep_same6. unfold same6. repeat split.
+    - intros l st _ _ _ _. simpl. apply nstep_same6. unfold same6. repeat split.
+    - intros l st _ _ _ _. simpl. apply nstep_same6. unfold same6. repeat split.
+    - intros l rets args body tail shared _ st NC. simpl in NC. discriminate.
+    - intros st _ _ _. apply nstep_same6. unfold same6. repeat split.
+    - intros s r Hs Hr st NC AG P. rewrite nocall_cons in NC. apply andb_true_iff in NC. destruct NC as [NCs NCr].
+      rewrite visit_b_cons.
+      assert (AGs : all_gt hi (slines s)) by (intros y Hy; apply AG; unfold blines; simpl; apply in_or_app; auto).
+      assert (AGr : all_gt hi (blines r)) by (intros y Hy; apply AG; unfold blines; simpl; apply in_or_app; auto).
+      refine (nstep_trans _ _ _ _ _ (Hs st NCs AGs ltac:(lia) (or_introl P)) (Hr _ NCr AGr _)).
+      rewrite (proj1 pnest_post s st AGs). exact P.
+  Qed.
+
+  (* the statements that follow the region at the top level of the function body: every name live at their
+     entry that is not yet postwritten becomes postread *)
+  Lemma post_top : forall ss st x,
+    nocall ss = true -> all_gt hi (blines ss) -> pnest st = 0%Z ->
+    In x (live_b ss k0) -> ~ In x (postwr st) -> In x (postrd (vb ss st)).
+  Proof.
+    induction ss as [|s r IH]; intros st x NC AG P Hl Hn.
+    - simpl in Hl. contradiction.
+    - rewrite nocall_cons in NC. apply andb_true_iff in NC. destruct NC as [NCs NCr].
+      assert (AGs : all_gt hi (slines s)) by (intros y Hy; apply AG; unfold blines; simpl; apply in_or_app; auto).
+      assert (AGr : all_gt hi (blines r)) by (intros y Hy; apply AG; unfold blines; simpl; apply in_or_app; auto).
+      rewrite visit_b_cons. rewrite live_b_cons in Hl. simpl kb in Hl. simpl kc in Hl.
+      assert (Pr : pnest (vs s st) = 0%Z) by (rewrite (proj1 pnest_post s st AGs); exact P).
+      assert (MONO : forall y, In y (postrd (vs s st)) -> In y (postrd (vb r (vs s st)))).
+      { intros y Hy. destruct (proj2 (post_phase lo hi LH) r (vs s st) NCr AGr) as (_ & _ & _ & _ & M & _). apply M. exact Hy. }
+      (* either the statement itself reads x first, or x is live after it and still not postwritten *)
+      assert (G : In x (postrd (vs s st)) \/ (In x (live_b r k0) /\ ~ In x (postwr (vs s st)))).
+      { destruct (compound s) eqn:CS.
+        - destruct (proj1 nested_phase s st NCs AGs ltac:(lia) (or_intror CS)) as (N1 & N2 & N3).
+          destruct (proj1 live_reads s _ x Hl) as [R|[R|[R|R]]]; simpl in R; try contradiction.
+          + left. apply N3; assumption.
+          + right. split; [exact R | rewrite N1; exact Hn].
+        - assert (L : (hi < line_of s)%N) by (apply AGs; apply line_in_slines).
+          destruct s; try discriminate; simpl line_of in L; simpl in Hl; simpl vs.
+          + (* assign *)
+            apply in_app_or in Hl. destruct Hl as [Hl|Hl].
+            * left. destruct (wv_after lo hi LH x0 l (ve l e st) L) as (_ & _ & _ & _ & M & _). apply M.
+              destruct (nstep_ve l e st L) as (_ & _ & N3). apply N3; assumption.
+            * apply In_remove in Hl. destruct Hl as [Hl Hne]. right. split; [exact Hl|].
+              destruct (wv_after lo hi LH x0 l (ve l e st) L) as (_ & _ & _ & _ & _ & W & _).
+              intros Hp. apply W in Hp. destruct Hp as [Hp|[Hp|[]]]; [|congruence].
+              destruct (nstep_ve l e st L) as (N1 & _). rewrite N1 in Hp. contradiction.
+          + (* aug *)
+            assert (RD : In x (x0 :: vars_e e) -> In x (postrd (wv x0 l (rv x0 l (ve l e st))))).
+            { intros Hx. destruct (wv_after lo hi LH x0 l (rv x0 l (ve l e st)) L) as (_ & _ & _ & _ & M & _). apply M.
+              destruct (nstep_trans _ _ _ _ _ (nstep_ve l e st L) (nstep_rv x0 l _ L)) as (_ & _ & N3).
+              apply N3; [|exact Hn]. apply in_or_app. destruct Hx as [Hx|Hx]; [right; left; exact Hx | left; exact Hx]. }
+            destruct Hl as [Hl|Hl]; [left; apply RD; left; exact Hl|].
+            apply in_app_or in Hl. destruct Hl as [Hl|Hl]; [left; apply RD; right; exact Hl|].
+            destruct (N.eq_dec x x0) as [Eq|Ne]; [left; apply RD; left; auto|].
+            right. split; [exact Hl|].
+            destruct (wv_after lo hi LH x0 l (rv x0 l (ve l e st)) L) as (_ & _ & _ & _ & _ & W & _).
+            intros Hp. apply W in Hp. destruct Hp as [Hp|[Hp|[]]]; [|congruence].
+            destruct (nstep_trans _ _ _ _ _ (nstep_ve l e st L) (nstep_rv x0 l _ L)) as (N1 & _). rewrite N1 in Hp. contradiction.
+          + (* print *)
+            destruct (nstep_trans _ _ _ _ _ (nstep_rv name_print l st L) (nstep_ve l e _ L)) as (N1 & _ & N3).
+            apply in_app_or in Hl. destruct Hl as [Hl|Hl].
+            * left. apply N3; [right; exact Hl | exact Hn].
+            * right. split; [exact Hl | rewrite N1; exact Hn].
+          + (* return *)
+            left. destruct (nstep_ve l e st L) as (_ & _ & N3). apply N3; assumption.
+          + (* pass *) right. split; [exact Hl | exact Hn].
+          + contradiction.
+          + contradiction. }
+      destruct G as [G|[G1 G2]]; [apply MONO; exact G|].
+      apply IH; assumption.
+  Qed.
+End After.
+
 (* ------------------------------------------------------------------ straight-line regions *)
 Lemma straight_facts : forall R, straight R = true ->
   mustd R = defs R /\ nocall R = true /\ (forall k, conv_b R k = true).
@@ -623,7 +933,7 @@ Proof.
 Qed.
 
 Lemma In_args_of : forall s x,
-  In x (args_of as_is false s) <->
+  In x (args_of current false s) <->
   (In x (prew s) /\ In x (rd s))
   \/ (In x (prew s) /\ In x (postrd s) /\ In x (mayw s) /\ ~ In x (wr s)).
 Proof.
@@ -639,14 +949,16 @@ Proof.
 Qed.
 
 Lemma init_phase : forall lo hi params, (1 < lo)%N -> (lo <= hi)%N ->
-  let s0 := fold_left (fun acc p => written_var as_is lo hi p 1%N acc) params cst0 in
+  let s0 := fold_left (fun acc p => written_var current lo hi p 1%N acc) params cst0 in
   cond s0 = false /\ depth s0 = 0%Z /\ rd s0 = [] /\ wr s0 = [] /\ mayw s0 = [] /\ postrd s0 = [] /\ postwr s0 = []
-  /\ (forall x, In x (prew s0) <-> In x params).
+  /\ (forall x, In x (prew s0) <-> In x params) /\ pnest s0 = 0%Z.
 Proof.
   intros lo hi params L1 LH.
+  assert (PN : forall ps st, pnest (fold_left (fun acc p => written_var current lo hi p 1%N acc) ps st) = pnest st).
+  { induction ps as [|p ps IH]; intros st; simpl; [reflexivity|]. rewrite IH. rewrite (wv_before lo hi LH p 1%N st L1). reflexivity. }
   assert (G : forall ps st, cond st = false -> depth st = 0%Z -> rd st = [] -> wr st = [] -> mayw st = [] ->
                             postrd st = [] -> postwr st = [] ->
-              let s0 := fold_left (fun acc p => written_var as_is lo hi p 1%N acc) ps st in
+              let s0 := fold_left (fun acc p => written_var current lo hi p 1%N acc) ps st in
               cond s0 = false /\ depth s0 = 0%Z /\ rd s0 = [] /\ wr s0 = [] /\ mayw s0 = [] /\ postrd s0 = [] /\ postwr s0 = []
               /\ (forall x, In x (prew s0) <-> In x (prew st) \/ In x ps)).
   { induction ps as [|p ps IH]; intros st H1 H2 H3 H4 H5 H6 H7; simpl.
@@ -662,6 +974,7 @@ Proof.
   repeat split; auto.
   - intros H. apply A8 in H. simpl in H. tauto.
   - intros H. apply A8. auto.
+  - rewrite PN. reflexivity.
 Qed.
 
 Lemma forallb_In : forall {A} (f : A -> bool) l, forallb f l = true -> forall x, In x l -> f x = true.
@@ -672,13 +985,13 @@ Theorem collector_sufficient : forall params pre R post,
   side_C03 params pre R post = true ->
   let lc := LHere pre R post in
   accepted (region lc) = true
-  /\ outline_ok lc params (args_rope as_is false params lc) (rets_rope as_is false params lc) false = true.
+  /\ outline_ok lc params (args_rope current false params lc) (rets_rope current false params lc) false = true.
 Proof.
   intros params pre R post H lc.
   unfold side_C03 in H.
   repeat (apply andb_true_iff in H; let H' := fresh "S" in destruct H as [H H']).
-  rename H into SR. rename S8 into ACC. rename S7 into NCpre. rename S6 into NCpost. rename S5 into L1.
-  rename S4 into LPRE. rename S3 into LR. rename S2 into LPOST. rename S1 into DEFPRE. rename S0 into DISJ. rename S into CV.
+  rename H into SR. rename S7 into ACC. rename S6 into NCpre. rename S5 into NCpost. rename S4 into L1.
+  rename S3 into LPRE. rename S2 into LR. rename S1 into LPOST. rename S0 into DEFPRE. rename S into CV.
   split; [exact ACC|].
   set (lo := first_line R) in *. set (hi := last_line R) in *.
   apply N.ltb_lt in L1.
@@ -696,19 +1009,19 @@ Proof.
   { intros l Hl. apply N.ltb_lt. exact (forallb_In _ _ LPOST l Hl). }
   destruct (straight_facts R SR) as [MD [NCR CVR]].
   (* the collector's run, phase by phase *)
-  set (s0 := fold_left (fun acc p => written_var as_is lo hi p 1%N acc) params cst0).
-  destruct (init_phase lo hi params L1 LH) as (I1 & I2 & I3 & I4 & I5 & I6 & I7 & I8). fold s0 in I1, I2, I3, I4, I5, I6, I7, I8.
-  set (s1 := visit_b as_is lo hi pre s0).
+  set (s0 := fold_left (fun acc p => written_var current lo hi p 1%N acc) params cst0).
+  destruct (init_phase lo hi params L1 LH) as (I1 & I2 & I3 & I4 & I5 & I6 & I7 & I8 & I9). fold s0 in I1, I2, I3, I4, I5, I6, I7, I8, I9.
+  set (s1 := visit_b current lo hi pre s0).
   pose proof (proj2 (pre_phase lo hi LH) pre s0 NCpre AL I1) as P1. fold s1 in P1.
   destruct P1 as (P1 & P2 & P3 & P4 & P5 & P6 & P7 & P8 & P9).
   assert (F1 : flat s1) by (split; [exact P1 | rewrite P2, I2; lia]).
-  set (s2 := visit_b as_is lo hi R s1).
+  set (s2 := visit_b current lo hi R s1).
   destruct (region_phase lo hi R s1 k0 SR AI F1) as [Q1 [Q2 Q3]]. fold s2 in Q1, Q2, Q3.
   destruct Q1 as (Q10 & Q11 & Q12 & Q13 & Q14 & Q15 & Q16 & Q17 & Q18).
-  set (s3 := visit_b as_is lo hi post s2).
+  set (s3 := visit_b current lo hi post s2).
   pose proof (proj2 (post_phase lo hi LH) post s2 NCpost AG) as T. fold s3 in T.
   destruct T as (T1 & T2 & T3 & T4 & T5 & T6 & T7).
-  assert (CL : collect_loc as_is false params lc = s3).
+  assert (CL : collect_loc current false params lc = s3).
   { unfold collect_loc, collect, lc. simpl region. fold lo hi. unfold orig. simpl plug.
     rewrite !visit_b_app. reflexivity. }
   (* membership facts about the final state *)
@@ -720,10 +1033,9 @@ Proof.
   assert (RD : forall x, In x (live_b R k0) -> In x (rd s3)).
   { intros x Hx. rewrite T2. destruct (Q3 x Hx) as [G|G]; [rewrite P5, I4; reflexivity | exact G | simpl in G; contradiction]. }
   assert (PRD : forall x, In x (defs R) -> In x (live_b post k0) -> In x (postrd s3)).
-  { intros x Hd Hl. apply T7.
-    - destruct (proj2 live_reads post k0 x Hl) as [G|[G|[G|G]]]; [exact G | | |]; simpl in G; contradiction.
-    - rewrite Q14, P8, I7. simpl. tauto.
-    - pose proof (forallb_In _ _ DISJ x Hd) as Q. apply negb_true_iff in Q. apply mem_false. exact Q. }
+  { intros x Hd Hl. apply (post_top lo hi LH post s2 x NCpost AG); [| exact Hl |].
+    - rewrite Q15, P3. exact I9.
+    - rewrite Q14, P8, I7. simpl. tauto. }
   (* the hypotheses of the outlining lemma *)
   unfold outline_ok, c_shape, c_args_cover, c_args_bound, c_rets_cover, c_rets_bound.
   unfold args_rope, rets_rope. rewrite CL. simpl region. simpl hole_info.
